@@ -66,6 +66,14 @@ def gen_rspec(rng, frng, name):
     else:
         rs["kind"] = rng.choice(["badkey_none", "badkey_empty", "badkey_int", "badkey_bytes", "reserved_type",
                                  "reserved_key", "metadata_reserved"])
+    if rs["kind"] in ("typed", "big") and frng.random() < 0.3:
+        # argument names a rule author may well pick -- among them the attribute names of a logging.LogRecord, the
+        # parameter names of Response.__init__'s callers and of the formatters
+        names = ["name", "module", "filename", "message", "process", "thread", "args", "msg", "lineno", "levelname", "exc_info",
+                 "created", "funcName", "pathname", "kwargs", "component", "rule_fqdn", "tags", "links", "details", "max_detail_length"]
+        rs["xname"] = frng.choice(names)
+        if rs["kind"] == "big" and frng.random() < 0.5:
+            rs["xname"], rs["xname2"] = "x", frng.choice(names)
     # a content template of the rule (only looked at when a formatter renders content)
     rs["content"] = rng.choice([None, None, None, None, "static text", "{{ d }} ok", "{{ d + 1 }}", "{% if d %}unterminated",
                                 {"KEY_A": "{{ d }}", "KEY_B": 5}, "{{ nosuchname.attr }}"])
